@@ -1087,7 +1087,7 @@ def run(res):
 
     counts = dict(collective=150, histogram=220, recorder=50, matrix=90, rebin=260, rebin_chain=60, rebin2d=25, combine=60)
     if not quick:
-        counts = {k: v * 12 for k, v in counts.items()}
+        counts = {k: v * 8 for k, v in counts.items()}
     cases = corpus_cases()
     for fam, n in counts.items():
         for _ in range(n):
